@@ -1,34 +1,39 @@
 """Translator "pybody": Python function bodies of the wrapper / numeric layer of mahotas -> Lean definitions.
 
 On every run the *current text* of a reviewed list of Python functions (`TARGETS`) is parsed with `ast` and each body
-is turned into one Lean definition in `lean/Mahotas/Generated/PyBodies.lean`; `lean/Mahotas/Proofs/PyBodyTies*.lean`
-prove that every generated definition equals the hand-written model definition the native driver runs. An edit of
-such a body changes the generated term, the tie theorem no longer compiles, and the check of every property whose
-model rests on that body reports a broken obligation (and searches for a failing input).
+is turned into one Lean definition in `lean/Mahotas/Generated/PyBodies<Cxx>.lean` (one file per property, over the prelude
+`PyBodies.lean`); `lean/Mahotas/Proofs/PyBodyTies*.lean` prove that every generated definition equals the hand-written
+model definition the native driver runs. An edit of such a body changes the generated term, the tie theorem no longer
+compiles, and the check of the property whose model rests on that body reports a broken obligation (and searches for a
+failing input). The full description (subset, primitive tables, ties, trusted base) is design-notes/reports/T2-pybody.md.
 
-Subset (anything else raises `TranslationError` naming function and construct - nothing is skipped silently):
+Subset (anything else raises `TranslationError` naming function, line and construct - nothing is skipped silently):
 
   statements   docstring; `x = e`; `x op= e`; `a[i] = e` (-> `P.setitem`); `return e`; `pass`; `raise` (the definition then
                returns `Option`, `raise` = `none`); `if/elif/else`; `for v in range(..)` / `for v in <vector>` with `break` /
                `continue` (-> `List.foldl` over `List.range'` with the sorted tuple of re-assigned variables as state and a
-               `done` flag when the loop has a `break`); `import` inside a body (ignored); calls of the reviewed guard
-               helpers (`_verify_is_integer_type`, ... - dropped: they are translated by translator/guards.py);
-               `out = _get_output(...)` and every `out=` / `output=` keyword (dropped: C09's convention, value-level
-               definitions have no destination buffers); `.copy()` is the identity.
+               `done` flag when the loop has a `break`); `while c:` (-> `whileFuel` under the reviewed bound `Target.fuels`);
+               `ufunc(a, b, out=x)` as a statement with x a local (-> `x = ufunc(a, b)`); `import` inside a body (ignored);
+               calls of the reviewed guard helpers (`_verify_is_integer_type`, ... - dropped: translator/guards.py has them);
+               `out = _get_output(...)` and every `out=` / `output=` keyword when `out`/`output` are PARAMETERS (dropped:
+               C09's convention, value-level definitions have no destination buffers); `.copy()` is the identity.
   control      continuation style: statement list => nested `let`; re-assignment => shadowing `let`; an `if` one of whose
                branches returns/raises/breaks duplicates the continuation into both branches, otherwise it is an
-               expression whose value is the (sorted) tuple of the variables assigned in it.
-  expressions  names, int/float/bool/None literals, `+ - * / // % **2`, unary minus, comparisons, `and/or/not`, `x if c else y`,
-               tuples, calls through the reviewed primitive table of the family (argument ORDER and kept keywords preserved:
-               a swapped `f, g` changes the generated term), the idioms listed in `_idiom`.
-  sorts        a small first-order sort discipline (`img`, `se`, `nat`, `int`, `K` scalar, `vec` = `List K`, `bool`) decides how an
-               operator is emitted: scalar op; `vec op scalar` = `List.map`; `vec op vec` = `List.zipWith` (numpy broadcasting
-               of equal-length 1-D arrays); Python `int` -> Lean `Int` (`//` = `Int.fdiv`, `%` = `Int.fmod`: Python semantics,
-               not C), naturals where the reviewed signature says so; int literals in scalar position = `ofNat n`;
-               float literals = `ofNat n` when integral, else `flit mantissa decimals`.
+               expression whose value is the (sorted) tuple of the variables assigned in it, each at the join of the sorts it
+               has at the end of the branches; `if x is None` on an optional parameter is a `match`.
+  expressions  names, int/float/bool literals, identifier-like string literals, `+ - * / // % **2`, unary minus, comparisons,
+               `and/or/not`, `x if c else y`, one-generator list comprehensions, calls through the reviewed primitive table of the
+               family (argument ORDER and kept keywords preserved: a swapped `f, g` changes the generated term), attribute /
+               method / operator primitives, the idioms listed in `_idiom`.
+  sorts        a small first-order sort discipline (`img`, `se`, `nat`, `int`, `K` scalar, `optK`, `vec` = `List K`,
+               `fld` = position -> scalar, `bool`, abstract array sorts) decides how an operator is emitted: scalar op;
+               `vec op scalar` = `List.map`; `vec op vec` = `List.zipWith` (numpy broadcasting of equal-length 1-D arrays);
+               `fld` pointwise; Python `int` -> Lean `Int` (`//` = `Int.fdiv`, `%` = `Int.fmod`: Python semantics, not C),
+               naturals where the reviewed signature says so; int literals in scalar position = `ofNat n`; float literals =
+               `ofNat n` when integral, else `flit mantissa decimals`.
 
-Trusted: this file (the meaning given to each Python construct above), the per-family primitive tables `PRIMS` and
-signatures `TARGETS` (reviewed by hand), numpy itself.
+Trusted: this file (the meaning given to each Python construct above), the per-family primitive tables and the signatures in
+`TARGETS` (reviewed by hand, including the `while` bounds), numpy itself.
 """
 from __future__ import annotations
 import ast, re, warnings
@@ -712,12 +717,12 @@ class Tr:
             # a state variable that enters as an int and leaves as a scalar is embedded before the loop (`res = maxt`)
             pre, env1 = [], dict(env)
             for _ in range(4):
-                saved = (self.counter, list(getattr(self, '_loops', [])), getattr(self, '_inloop', 0), getattr(self, '_nwhile', 0))
+                saved = (self.counter, list(getattr(self, '_loops', [])), getattr(self, '_inloop', 0))
                 try:
                     body = self.for_loop(s, rest, env1, k, ind) if isinstance(s, ast.For) else self.while_loop(s, rest, env1, k, ind)
                     return pre + body
                 except SortChange as sc:
-                    self.counter, self._loops, self._inloop, self._nwhile = saved
+                    self.counter, self._loops, self._inloop = saved
                     txt = self.coerce(lname(sc.name), sc.have, sc.want, s)
                     pre.append('  ' * ind + f'let {lname(sc.name)} := {txt}')
                     env1[sc.name] = sc.want
